@@ -552,7 +552,7 @@ theorem C13_keep_newest {p : CParams} {es : List Ent} {e : Ent} (hs : SortedEnts
 def CParams.noPrefixes (p : CParams) : CParams := { p with dropPrefixes := [] }
 
 theorem filtStep_noPrefixes (p : CParams) (st : FState) (e : Ent)
-    (h : hasAnyPrefix e.ikey p.dropPrefixes = false) :
+    (h : hasAnyPrefix e.key p.dropPrefixes = false) :
     filtStep p st e = filtStep p.noPrefixes st e := by
   unfold filtStep
   rw [h]
@@ -560,11 +560,11 @@ theorem filtStep_noPrefixes (p : CParams) (st : FState) (e : Ent)
 
 theorem filtRun_dropPrefixes (p : CParams) (st : FState) (es : List Ent) :
     filtRun p st es =
-      filtRun p.noPrefixes st (es.filter (fun e => !hasAnyPrefix e.ikey p.dropPrefixes)) := by
+      filtRun p.noPrefixes st (es.filter (fun e => !hasAnyPrefix e.key p.dropPrefixes)) := by
   induction es generalizing st with
   | nil => rfl
   | cons e es ih =>
-    cases h : hasAnyPrefix e.ikey p.dropPrefixes with
+    cases h : hasAnyPrefix e.key p.dropPrefixes with
     | true =>
       have : filtStep p st e = (st, false) := by simp [filtStep, h]
       rw [filtRun_cons, this, List.filter_cons]
@@ -579,15 +579,15 @@ theorem filtRun_dropPrefixes (p : CParams) (st : FState) (es : List Ent) :
     followed by the plain compaction filter -/
 theorem subcompact_dropPrefixes (p : CParams) (es : List Ent) :
     subcompact p es =
-      subcompact p.noPrefixes (es.filter (fun e => !hasAnyPrefix e.ikey p.dropPrefixes)) :=
+      subcompact p.noPrefixes (es.filter (fun e => !hasAnyPrefix e.key p.dropPrefixes)) :=
   filtRun_dropPrefixes p {} es
 
 /-- `C13_keep_n` for arbitrary `dropPrefixes`: the boundaries are those of the stream with the
     prefixed entries removed. -/
 theorem C13_keep_n_prefixes {p : CParams} {es : List Ent} (hs : SortedEnts es) (e : Ent) :
     e ∈ subcompact p es ↔
-      e ∈ es ∧ hasAnyPrefix e.ikey p.dropPrefixes = false ∧
-        keeps p.noPrefixes (es.filter (fun e => !hasAnyPrefix e.ikey p.dropPrefixes)) e = true := by
+      e ∈ es ∧ hasAnyPrefix e.key p.dropPrefixes = false ∧
+        keeps p.noPrefixes (es.filter (fun e => !hasAnyPrefix e.key p.dropPrefixes)) e = true := by
   rw [subcompact_dropPrefixes, subcompact_eq_filter (p := p.noPrefixes) rfl (hs.filter _),
     List.mem_filter, List.mem_filter]
   simp [and_assoc]
